@@ -132,6 +132,8 @@ Static ==
           /\ \A i \in LostEntries :
                 Chk("lost_injection", FALSE, EntryD(i))
           /\ Chk("second_encode_differs", C.same2, [x |-> 0])
+          \* C26: a plan injected through a ComponentIterator encodes to the same module as through ModuleIterator
+          /\ Chk("component_differs_from_module", ("twin_same" \notin DOMAIN C) \/ C.twin_same, [x |-> 0])
           /\ Chk("nondeterministic", ~C.nd, [x |-> 0])
           /\ Chk("flag_local_not_fresh",
                  \A x \in LocalsTouched(C.low) \ LocalsTouched(C.orig) : x >= C.nlocals,
